@@ -209,6 +209,11 @@ func randHistoryOp(r *rng, w *world) string {
 			if w.dead[j] || scalarWide(x) || j == i {
 				continue
 			}
+			// plain destinations only: what reshaping a lazily transposed or sliced destination leaves
+			// behind (its thunk, its window) is outside what the properties specify
+			if x.IsMaterializable() || x.DataOrder().IsColMajor() || x.RequiresIterator() {
+				continue
+			}
 			if x.Shape().TotalSize() == w.ts[i].Shape().TotalSize() && x.Dtype() == w.ts[i].Dtype() && !x.IsScalar() && !w.ts[i].IsScalar() {
 				out = append(out, j)
 			}
